@@ -115,6 +115,7 @@ func (w *World) AddTun(name string, addrs ...string) *Dev {
 
 func (w *World) finish(d *Dev, addrs []string) {
 	mustSh("ip", "link", "set", "dev", d.Name, "txqueuelen", "300000")
+	mustSh("ip", "link", "set", "dev", d.Name, "mtu", "9000") // jumbo replies (longer than the scanner's capture length) can be injected
 	os.WriteFile("/proc/sys/net/ipv6/conf/"+d.Name+"/disable_ipv6", []byte("1"), 0o644)
 	for _, a := range addrs {
 		if strings.Contains(a, ":") {
